@@ -372,7 +372,7 @@ def _lock_programs(trace_files, out_path):
                 held = []   # (id, class, role)
                 ops = []
                 for e in es:
-                    if e["k"] == "want":
+                    if e["k"] in ("want", "got"):
                         if any(h[0] == e["id"] for h in held):
                             role = "same"
                         elif e["c"] == "shard":
